@@ -658,7 +658,7 @@ class OpenDocument:
         # Write the thumbnail
         if self.thumbnail is not None:
             self.manifest.addElement(manifest.FileEntry(fullpath=u"Thumbnails/", mediatype=u''))
-            self.manifest.addElement(manifest.FileEntry(fullpath=u"Thumbnails/thumbnail.png", mediatype=u''))
+            self.manifest.addElement(manifest.FileEntry(fullpath=u"Thumbnails/thumbnail.png", mediatype=getattr(self, '_thumbnail_mediatype', u'')))
             zi = zipfile.ZipInfo(u"Thumbnails/thumbnail.png", self._now)
             zi.compress_type = zipfile.ZIP_DEFLATED
             zi.external_attr = UNIXPERMS
@@ -1023,6 +1023,7 @@ def load(odffile):
             doc.addPicture(mvalue['full-path'], mvalue['media-type'], z.read(mentry))
         elif mentry == u"Thumbnails/thumbnail.png":
             doc.addThumbnail(z.read(mentry))
+            doc._thumbnail_mediatype = mvalue['media-type']    # re-listed as the source listed it
         elif mentry in (u'settings.xml', u'meta.xml', u'content.xml', u'styles.xml'):
             pass
         elif mentry in (u'/', u'Thumbnails/', u'mimetype', u'META-INF/manifest.xml'):
